@@ -116,7 +116,7 @@ pub fn corpus() -> Vec<(String, String)> {
     root.pop();
     root.pop();
     let thorough = std::env::var("VERIF_TIER").map(|t| t == "thorough").unwrap_or(false);
-    let names: &[&str] = if thorough { &["fib_array", "fib_box", "fib_struct", "fib_local", "fib_match", "fib_u128_checked", "fib_gas", "hash_chain_gas", "enum_flow", "match_or", "pedersen_test"] } else { &["fib_local", "fib_box", "enum_flow"] };
+    let names: &[&str] = if thorough { &["fib_array", "fib_box", "fib_struct", "fib_local", "fib_match", "fib_u128_checked", "fib_gas", "hash_chain_gas", "enum_flow", "match_or", "pedersen_test"] } else { &["fib_local", "fib_box", "enum_flow", "fib_gas"] };
     for n in names { files.push(root.join("tests/test_data").join(format!("{n}.sierra"))); }
     files.sort();
     files.into_iter().filter_map(|f| std::fs::read_to_string(&f).ok().map(|s| (f.file_name().unwrap().to_string_lossy().to_string(), s))).collect()
